@@ -57,7 +57,7 @@ theorem forms_start (G : Gram N) (start : List (List (Sym N))) (α : List (Sym N
 
 theorem mem_univ (G : Gram N) (start : List (List (Sym N))) (w : List B) (α : List (Sym N)) (x : List B) :
     (α, x) ∈ univ G start w ↔ α ∈ forms G start ∧ x <:+: w := by
-  simp only [univ, List.mem_flatMap, List.mem_map, Prod.mk.injEq, ← mem_infixes]
+  simp only [univ, List.mem_flatMap, List.mem_map, Prod.mk.injEq, ← mem_infixes, List.mem_eraseDups]
   constructor
   · rintro ⟨β, hβ, y, hy, rfl, rfl⟩; exact ⟨hβ, hy⟩
   · rintro ⟨h1, h2⟩; exact ⟨α, h1, x, h2, rfl, rfl⟩
